@@ -57,8 +57,12 @@ package m
 //@   ensures layout [C01]: len(result) == 4 + len(keyToolID) + len(pubKeyData) && result[0] == 1 && result[1] == uint8(len(keyToolID)) && be16(result[2], result[3]) == len(pubKeyData)
 //@   ensures key-bytes [C01]: forall i int :: 0 <= i && i < len(pubKeyData) ==> result[4+len(keyToolID)+i] == pubKeyData[i]
 
+//@ fun be64(b []byte) uint64 = uint64(b[7]) | uint64(b[6])<<8 | uint64(b[5])<<16 | uint64(b[4])<<24 | uint64(b[3])<<32 | uint64(b[2])<<40 | uint64(b[1])<<48 | uint64(b[0])<<56
+
 //@ func makeAddressDigest
 //@   modifies nothing
+//@   callsite hash.Write#1 key-material-hashed [C01]: len(arg0) == 4 + len(keyToolID) + len(pubKeyData) && arg0[0] == 1
+//@   callsite hash.Write#2 easing-hashed-in-full [C01]: easing > 0 && len(arg0) == 8 && be64(arg0) == easing
 //@   requires hashvalid(digestAlg) && len(keyToolID) <= 255 && len(pubKeyData) <= 65535
 
 // VerifyAddressKey is total: any combination of inputs is answered with nil or an error, never a panic.
@@ -89,3 +93,12 @@ package m
 //@   ensures verified-identity [C01]: result1 == nil ==> result0 != nil && result0.PublicAddress.verified && hashvalid(result0.Hash)
 //@ func PublicAddressFromKeyPair
 //@   ensures verified-identity [C01]: result1 == nil ==> result0 != nil && result0.verified && hashvalid(result0.Hash)
+
+// Generated identities lie in an acceptable prefix and outside the internal and all ignored ranges.
+//@ fun inPrefix(p netip.Prefix, ip netip.Addr) bool = uf("prefixContains", bool, p, ip)
+//@ func tryToGenerateAddress
+//@   invariant 2 ignored-so-far [C01]: forall j int :: 0 <= j && j <= rangeindex && j < len(ignorePrefixes) ==> !inPrefix(ignorePrefixes[j], generatedIP)
+//@   ensures outside-ignored [C01]: result0 != nil ==> (forall j int :: 0 <= j && j < len(ignorePrefixes) ==> !inPrefix(ignorePrefixes[j], result0.IP))
+//@   ensures outside-internal [C01]: result0 != nil ==> !inPrefix(InternalPrefix, result0.IP)
+//@   ensures in-acceptable [C01]: result0 != nil ==> (exists j int :: 0 <= j && j < len(acceptablePrefixes) && inPrefix(acceptablePrefixes[j], result0.IP))
+//@   ensures identity [C01]: result0 != nil ==> len(result0.PrivateKey) == 64 && len(result0.PublicKey) == 32 && result0.Type == "Ed25519" && result0.Hash == AddressDigestAlg
